@@ -41,8 +41,7 @@ PROPS = {
     "C03": {
         "trusted_base": COMMON_TB + ["Lean Float (C double) in the driver for the final division of the integer pair (num, den) of fractions; IEEE division is deterministic"],
         "assumptions": COMMON_ASSUME + [
-            "floating-point answers (range_fraction, cell_fraction, coverage_percentage, MOM weighted sum) are compared bit-for-bit with the model's integer pair divided in double precision; no theorem is stated about them beyond the empty-MOC case",
-            "range_sum = number of covered indices is not proved (rangeSum is compared by the correspondence only)"],
+            "floating-point answers (range_fraction, cell_fraction, coverage_percentage, MOM weighted sum): the integer pair fed to the final division is PROVED to be determined by the number of covered indices (rangeFraction_sem, rangeSum_counts, cellCount_sem, coverage_sem); the f64 division itself and the MOM weighted sum are compared bit-for-bit by the correspondence, not modelled in Lean"],
         "rule": "EXHAUSTIVE: every canonical set over a 6-cell universe (cell = 2 indices) x every point 0..13 and every non-empty range over 0..13 "
                 "for contains_val / contains_range / intersects_range / range_fraction; every ordered pair of sets over a 6-cell (quick) / 7-cell "
                 "(thorough) universe for intersects / contains / overlapped_by_iter; per (quantity,width): whole-domain small scope + boundary-biased "
